@@ -160,7 +160,7 @@ Theorem simplest_from_float_asis_closed : forall B md p sig0 ex0, 0 < B ->
        | Panic e => Panic e | Err e => Err e | OutOfFuel => OutOfFuel
        end.
 Proof.
-  intros B md p sig0 ex0 HB. unfold simplest_from_float_asis.
+  intros B md p sig0 ex0 HB. unfold simplest_from_float_asis, simplest_from_float_with.
   destruct (fnormalize B sig0 ex0) as [sig ex]. destruct (sig =? 0); [reflexivity|].
   destruct (error_bounds_asis B md p sig ex) as [[[[l r] il] ir]| | |] eqn:E; try reflexivity.
   destruct (error_bounds_asis_pos B md p sig ex l r il ir HB E) as (Hl & Hr).
